@@ -104,7 +104,7 @@ def main():
             "enable": "RUSTFLAGS=\"... --cfg sonic_rs_verif\" set by ./run for every build configuration of the harness (sonic-rs is a path dependency on /repo)",
             "baseline_off_cmd": "cd /repo && cargo test --workspace --no-fail-fast --offline",
             "source_commits": hooks,
-            "add_only": True,
+            "add_only": False,
         },
         "engines": [
             {"name": "vcheck", "path": "/verif/harness", "serves_properties": have, "kind_free_text": "Rust property-based testing harness: proptest-driven choice sequences with shrinking, bounded-exhaustive enumerators, an independent reference JSON implementation, model serializer and Vec/Map models as oracles, crash capture, guard pages, counting allocator"},
